@@ -140,16 +140,56 @@ fn instant() -> impl Strategy<Value = i64> {
     ]
 }
 
-/// (build, own offset pick)
-fn build() -> impl Strategy<Value = (BuildD, u16)> {
-    (
-        (version(), build_number(), hash32(), hash32()),
-        (keyring(), proptest::option::weighted(0.5, hash32()), cdn_path()),
-        (instant(), any::<u16>()),
-    )
+fn plain_product_name() -> impl Strategy<Value = String> {
+    prop_oneof![
+        75 => benign(16),
+        23 => proptest::sample::select(vec!["wow", "wow_classic", "wow_classic_era", "wowt", "agent", "bna", "d3", "pro", "s2", "hsb", "fenris"]).prop_map(str::to_string),
+        2 => proptest::sample::select(vec![".", "..", "...", "-", "_"]).prop_map(str::to_string),
+    ]
+}
+
+fn plain_version() -> impl Strategy<Value = String> {
+    prop_oneof![
+        50 => benign(16),
+        50 => (1u32..12, 0u32..20, 0u32..10, 1u32..70_000).prop_map(|(a, b, c, d)| format!("{a}.{b}.{c}.{d}")),
+    ]
+}
+
+fn plain_build_number() -> impl Strategy<Value = String> {
+    prop_oneof![
+        82 => (0u32..=999_999).prop_map(|n| n.to_string()),
+        6 => (1usize..=4, 0u32..100_000).prop_map(|(z, n)| format!("{}{n}", "0".repeat(z))),
+        4 => Just(u32::MAX.to_string()),
+        8 => prop_oneof![Just(4_294_967_296u64), Just(i64::MAX as u64), (u64::from(u32::MAX) + 1)..=(i64::MAX as u64)].prop_map(|n| n.to_string()),
+    ]
+}
+
+fn plain_keyring() -> impl Strategy<Value = Option<String>> {
+    prop_oneof![45 => Just(None), 55 => hash32().prop_map(Some)]
+}
+
+fn plain_cdn_path() -> impl Strategy<Value = Option<String>> {
+    prop_oneof![55 => Just(None), 45 => chars_of(PATH_CHARS, 1, 12).prop_map(Some)]
+}
+
+/// (build, own offset pick). `adv`: strings that validation lets through
+/// although they are not what the field is documented to hold.
+fn build(adv: bool) -> BoxedStrategy<(BuildD, u16)> {
+    let text = if adv {
+        (version(), build_number(), hash32(), hash32()).boxed()
+    } else {
+        (plain_version(), plain_build_number(), hash32(), hash32()).boxed()
+    };
+    let opt = if adv {
+        (keyring(), proptest::option::weighted(0.5, hash32()), cdn_path()).boxed()
+    } else {
+        (plain_keyring(), proptest::option::weighted(0.5, hash32()), plain_cdn_path()).boxed()
+    };
+    (text, opt, (instant(), any::<u16>()))
         .prop_map(|((version, build, build_config, cdn_config), (keyring, product_config, cdn_path), (utc_secs, off))| {
             (BuildD { version, build, build_config, cdn_config, keyring, product_config, cdn_path, utc_secs, offset_min: 0 }, off)
         })
+        .boxed()
 }
 
 #[derive(Debug, Clone, Copy)]
@@ -159,9 +199,16 @@ enum OffsetMode {
     Mixed,
 }
 
+/// 65 % of the databases hold only strings of the documented kinds (they stay
+/// acceptable under any stricter validation); 35 % mix in the adversarial ones.
 pub fn db_strategy() -> impl Strategy<Value = DbDesc> {
+    prop_oneof![65 => db_of(false), 35 => db_of(true)]
+}
+
+fn db_of(adv: bool) -> BoxedStrategy<DbDesc> {
+    let name = if adv { product_name().boxed() } else { plain_product_name().boxed() };
     (
-        proptest::collection::vec((product_name(), proptest::collection::vec(build(), 1..=4)), 1..=6),
+        proptest::collection::vec((name, proptest::collection::vec(build(adv), 1..=4)), 1..=6),
         prop_oneof![
             60 => Just(OffsetMode::AllUtc),
             12 => proptest::sample::select(OFFSETS.to_vec()).prop_map(OffsetMode::Same),
@@ -191,6 +238,7 @@ pub fn db_strategy() -> impl Strategy<Value = DbDesc> {
             cdn_hosts: hosts.to_string(),
             cdn_path: path.to_string(),
         })
+        .boxed()
 }
 
 // ---------------------------------------------------------------------------
@@ -382,7 +430,7 @@ fn hostile(thorough: bool) -> BoxedStrategy<Hostile> {
 /// A small mostly-benign database plus 4 hostile clients with 1-4 requests each.
 pub fn hostile_strategy(thorough: bool) -> impl Strategy<Value = HostileCase> {
     (
-        proptest::collection::vec((benign(12), proptest::collection::vec(build(), 1..=2)), 0..=2),
+        proptest::collection::vec((benign(12), proptest::collection::vec(build(false), 1..=2)), 0..=2),
         proptest::collection::vec(proptest::collection::vec(hostile(thorough), 1..=4), 4),
     )
         .prop_map(|(products, clients)| HostileCase {
